@@ -260,6 +260,26 @@ def prim_clone(ex, st, callee, args, m):
     return D(ex, args[0])
 
 
+@model(r'^<(usize|u64|u32|u16|u8|i64|i32|i16|i8|isize) as (?:std::cmp::|core::cmp::)?Ord>::(min|max)$')
+def prim_ord_minmax(ex, st, callee, args, m):
+    """Ord::min / Ord::max on integers"""
+    a, b = D(ex, args[0]), D(ex, args[1])
+    signed = m.group(1).startswith('i')
+    lt = (a < b) if signed else z3.ULT(a, b)
+    return If(lt, a, b) if m.group(2) == 'min' else If(lt, b, a)
+
+
+@model(r'^(?:std::option::|core::option::)?Option::<&(?:mut )?.*>::(copied|cloned)$')
+def option_copied(ex, st, callee, args, m):
+    """Option<&T>::copied / cloned for plain-data T: Some(&v) -> Some(v)"""
+    o = args[0]
+    if not isinstance(o, Enum): return NotImplemented
+    pay = o.fields.get('Some', [None])[0]
+    v = pay
+    while isinstance(v, Ptr): v = v.get()
+    return Enum('Option', o.disc, {'Some': [v], 'None': []})
+
+
 @model(r'^<&*(?:std::option::)?Option<(?:std::cmp::)?Ordering> as (?:std::cmp::)?PartialEq>::(eq|ne)$')
 def opt_ordering_eq(ex, st, callee, args, m):
     """Option<Ordering> == Option<Ordering>"""
